@@ -15,6 +15,11 @@ import Anko.Model.Eval
 import Anko.Proofs.EvalFuel
 import Anko.Gen.ImportFlow
 import Anko.Props.ImportFlowTable
+import Anko.Props.Tie.ImportFlow
+import Anko.Props.Tie.CallFlow
+import Anko.Props.Tie.ExprFlow
+import Anko.Props.Tie.BindFlow
+import Anko.Props.Tie.RunFlow
 
 namespace Anko.C14
 open Anko
@@ -62,6 +67,21 @@ theorem tree_reusable (fuel : Nat) (p : Stmt) (s : St) :
 Every leaf statement of invokeImportExpr - the package tables are only READ, every import builds a module scope of its own and defines the entries in
 it - is the one written down in Props/ImportFlowTable. Any edit of these functions - also a harmless one - breaks this obligation by name; the check then
 searches model and implementation for a failing input (DESIGN.md 13.3). -/
-theorem import_copies_the_package_tables_as_modelled : Gen.ImportFlow.leaves = Tables.importFlow := by decide +kernel
+theorem import_copies_the_package_tables_as_modelled : Gen.ImportFlow.leaves = Tables.importFlow := Tie.importFlow
+
+/-! ### Shared source ties
+
+The code this property is anchored in is also written down, leaf statement by leaf statement, by the tables below (each decided once in
+Props/Tie, `decide +kernel`, against the table regenerated from /repo on this run). A change of that code breaks the tie by name here too, and the check of
+this property then searches for a failing input - so a change that breaks this property through code whose primary table belongs to another
+property is not overlooked. -/
+/-- the call machinery (vmExprFunction.go) -/
+theorem source_tie_CallFlow : Gen.CallFlow.leaves = Tables.callFlow := Tie.callFlow
+/-- the expression dispatcher and multi-operand forms (vmExpr.go) -/
+theorem source_tie_ExprFlow : Gen.ExprFlow.leaves = Tables.exprFlow := Tie.exprFlow
+/-- function literals, module, var and assignment statements -/
+theorem source_tie_BindFlow : Gen.BindFlow.leaves = Tables.bindFlow := Tie.bindFlow
+/-- the entry points, recoverFunc, newError, type and value construction -/
+theorem source_tie_RunFlow : Gen.RunFlow.leaves = Tables.runFlow := Tie.runFlow
 
 end Anko.C14
